@@ -65,7 +65,9 @@ CLAIMED = {
             'internally consistent; the two tie-mask implementations agree; every converter of an inexact source '
             '(string, rational, Decimal) in the mp context layer is handed the rounding mode (their default is '
             'round-down: Fraction operands were truncated, repaired) and mpf() has a branch for each source type the '
-            'property names.  Does NOT prove that the '
+            'property names; the special-value clause (inf/nan operands, zero divisors) is decided by interpreting the explicit '
+            'special-case code of add/sub/mul/div/neg/abs/pos/sqrt on every combination of operand classes against an '
+            'IEEE-style table (S-R1, exhaustive over the classes).  Does NOT prove that the '
             'rounded value is the nearest one (bit-level algebra).',
             'Trusts _normalize/_normalize1 (structure checked under C01) and the idiom lemmas.',
             'DESIGN.md section 2, Engine B (B-R3, B-R4)'),
